@@ -69,6 +69,13 @@ pub fn check(case: &C18Case) -> CaseOutcome
         .iter()
         .filter(|(rel, orig)| ref_edit.after.get(rel).map(|n| n != orig).unwrap_or(false))
         .count();
+    // Does the subject work on one source file at a time? (a second source file opened while another one
+    // is still open, in the fault-free run, shows a subject that processes files concurrently)
+    let sequential = subject_is_sequential() && !trace_shows_overlapping_source_files(&r.run.trace);
+    if !sequential
+    {
+        o.class("subject-processes-files-concurrently");
+    }
     o.class(if case.check_mode { "mode-check" } else { "mode-edit" });
     o.class(if case.tree.structured { "structured" } else { "unstructured" });
     o.class(if case.tree.cache { "cache-on" } else { "cache-off" });
@@ -146,6 +153,13 @@ pub fn check(case: &C18Case) -> CaseOutcome
         let fr = fault_run(&tree, case.check_mode, Some(plan.clone()), None);
         o.evals += 1;
         let delivered = fr.run.trace.iter().any(|t| t.kind == "SIGNAL");
+        if *after_fault && !fr.run.trace.iter().any(|t| t.inj == "fail" && t.kind == "rename" && t.path2.ends_with("/Breadlog.lock"))
+        {
+            // the operation order of THIS run differed from the recording run's: the injected failure
+            // hit something other than a lock-file write, which is not this plan's subject
+            o.class("lock-write-failure-plan-missed-its-operation");
+            continue;
+        }
         if fr.run.exit == Exit::Timeout
         {
             o.inconclusive = Some(format!("plan {} ran into the watchdog", plan));
@@ -232,13 +246,29 @@ pub fn check(case: &C18Case) -> CaseOutcome
                     {
                         fail(&mut o, "interrupted-check-passes".into(), format!("{}: exit 0 although {} reference(s) are missing in the tree", ctx, missing));
                     }
-                    else if *k <= last_file_open
+                    else
                     {
-                        fail(
-                            &mut o,
-                            "interrupted-check-passes".into(),
-                            format!("{}: exit 0 although the scan had not reached the last file yet (its open is op {})", ctx, last_file_open),
-                        );
+                        // judged on what THIS run did: every source file has to have been opened before the signal
+                        let mut opened: std::collections::BTreeSet<&str> = std::collections::BTreeSet::new();
+                        for t in &fr.run.trace
+                        {
+                            if t.kind == "SIGNAL"
+                            {
+                                break;
+                            }
+                            if t.kind == "open" && t.ret >= 0 && is_src_file(&t.path)
+                            {
+                                opened.insert(t.path.as_str());
+                            }
+                        }
+                        if opened.len() < files.len()
+                        {
+                            fail(
+                                &mut o,
+                                "interrupted-check-passes".into(),
+                                format!("{}: exit 0 although the scan had reached only {} of {} source files when the signal arrived (the last file's open is op {} of the fault-free run)", ctx, opened.len(), files.len(), last_file_open),
+                            );
+                        }
                     }
                 }
                 else
@@ -287,7 +317,7 @@ pub fn check(case: &C18Case) -> CaseOutcome
                     }
                 }
             }
-            if started.len() > 1
+            if started.len() > 1 && sequential && !trace_shows_overlapping_source_files(&fr.run.trace)
             {
                 fail(
                     &mut o,
@@ -355,7 +385,7 @@ pub fn run(env: &Env, rec: &Recorder) -> (String, Vec<&'static str>)
     pbt_opts(env, rec, "signals", env.cases(40, 1000), 30, &strategy, &check);
     rec.set_exhaustive(true);
     (
-        "trees of 2-8 source files (some needing insertions, some not), both modes, both styles, cache on/off, lock absent/consistent; a recording run gives the K counted operations (file system calls on project and TMPDIR paths AND every line written to standard output / standard error); then for each of SIGTERM and SIGINT and EVERY boundary k in 1..=K+1 the signal is delivered immediately before operation k (LD_PRELOAD shim, thread-directed so that the handler has run before the operation starts), plus, for every boundary from the start of discovery on, a pair of signals (the second one 1-3 operations later), plus (edit mode) every lock-file write failed once (ENOSPC) followed by a signal at the later boundaries, each on a fresh copy. Oracle from the start of source discovery on: the process exits by itself; after the signal it starts work on at most one more source file; exit 0 only if nothing was left to do (edit: a following --check passes; check: no reference missing and the last file had been reached); every source file untouched or a complete update; with the cache on and >= 1 file updated a parsable lock with next > every ID inserted. Before discovery: the process may be killed but then nothing is modified. exhaustive=true: all boundaries of each generated tree. Non-trivial = distinct (tree, mode, signal, boundary) strictly between the first and last source-file operation on a tree with >= 2 files needing work".to_string(),
+        "trees of 2-8 source files (some needing insertions, some not), both modes, both styles, cache on/off, lock absent/consistent; a recording run gives the K counted operations (file system calls on project and TMPDIR paths AND every line written to standard output / standard error); then for each of SIGTERM and SIGINT and EVERY boundary k in 1..=K+1 the signal is delivered immediately before operation k (LD_PRELOAD shim, thread-directed so that the handler has run before the operation starts), plus, for every boundary from the start of discovery on, a pair of signals (the second one 1-3 operations later), plus (edit mode) every lock-file write failed once (ENOSPC) followed by a signal at the later boundaries, each on a fresh copy. Oracle from the start of source discovery on: the process exits by itself; after the signal it starts work on at most one more source file (judged when a probe run over eight 400 KB files and the case's own runs show a subject that has one source file open at a time; a subject that works on several files at once finishes those); exit 0 only if nothing was left to do (edit: a following --check passes; check: no reference missing and every source file had been opened before the signal arrived); every source file untouched or a complete update; with the cache on and >= 1 file updated a parsable lock with next > every ID inserted. Before discovery: the process may be killed but then nothing is modified. exhaustive=true: all boundaries of each generated tree. Non-trivial = distinct (tree, mode, signal, boundary) strictly between the first and last source-file operation on a tree with >= 2 files needing work".to_string(),
         vec!["signals are delivered synchronously at libc call boundaries (kill(getpid()) from the interposer); asynchronous delivery inside a system call is not enumerated", "the harness resets SIGINT/SIGTERM to SIG_DFL in the child so that an inherited SIG_IGN cannot mask a missing handler"],
     )
 }
